@@ -100,6 +100,10 @@ def main():
     def passes(pid):
         q = [] if pid == "C20" else ["chk"]
         t = list(q)
+        if pid in ("C01", "C07"):
+            q.append("exp")
+        if pid in ("C01", "C05", "C07", "C09", "C10", "C13", "C15"):
+            t.append("exp")
         if pid in ("C05", "C06"):
             q.append("miri")
         if pid in ("C01", "C05", "C06", "C10", "C11", "C12", "C14", "C16"):
@@ -112,6 +116,7 @@ def main():
             t.append("fuzz")
         return q, t
     NAMES = {"chk": "chk = the same monitor re-run in a release build with integer-overflow checks and debug assertions on",
+             "exp": "exp = the same monitor re-run in a build with the library's `experimental` feature compiled in, where the configuration generator also draws the direct-MSE and IRLS-MAE estimators (accepted by verification only in such a build)",
              "miri": "miri = tiny workloads with the same oracles under the Miri interpreter (UB, data races, deadlock, leaked threads; one seeded schedule per shard)",
              "tsan": "tsan = the quick workload under ThreadSanitizer (-Zbuild-std)",
              "asan": "asan = the quick workload under AddressSanitizer/LeakSanitizer",
